@@ -10,6 +10,7 @@ import KiraModel.Exec.SuiteModulator
 import KiraModel.Exec.SuiteModSys
 import KiraModel.Exec.SuiteClock
 import KiraModel.Exec.SuiteSpatial
+import KiraModel.Exec.SuiteWav
 
 open K.Exec K.Exec.Clock
 
@@ -35,6 +36,7 @@ def suiteOf (name : String) : Option Suite :=
   | "clocksys" => some { σ := SysSuiteState, init := {}, step := clockSysStep }
   | "clocktear" => some { σ := TearState, init := {}, step := tearStep }
   | "spatial" => some { σ := Option (K.Scene Float), init := none, step := spatialStep }
+  | "wav" => some { σ := WavState, init := {}, step := wavStep }
   | _ => none
 
 def tokens (line : String) : List String :=
